@@ -57,9 +57,19 @@ Proof.
   induction s as [|x r IH]; [reflexivity|]. cbn [go_contains existsb]. rewrite IH. f_equal.
   unfold go_has_prefix. cbn. now rewrite andb_true_r.
 Qed.
+(* the white space outside ASCII (Model.uspace_seqs) needs an octet above 127 *)
+Lemma ascii_no_uspace (k : str) : Forall (fun c : N => (c < 128)%N) k -> has_uspace k = false.
+Proof.
+  induction 1 as [|c r Hc _ IH]; [reflexivity|].
+  cbn [has_uspace]. rewrite IH, orb_false_r.
+  unfold uspace_seqs. cbn [existsb has_prefix].
+  repeat match goal with |- context [?a =? c] => replace (a =? c) with false by (symmetry; apply N.eqb_neq; lia) end.
+  reflexivity.
+Qed.
 Lemma gen_persistable (k : str) : Forall (fun c => c < 128) k -> go_persistable k = persistable k.
 Proof.
-  intros _. unfold go_persistable, go_index_space_ascii, persistable.
+  intros Hk. unfold persistable. rewrite (ascii_no_uspace k Hk). cbn [negb]. rewrite andb_true_r. clear Hk.
+  unfold go_persistable, go_index_space_ascii, persistable_ascii.
   rewrite contains_byte, index_space_from_neg by lia. change persist_comment_char with 35.
   induction k as [|c r IH]; [reflexivity|]. cbn [existsb forallb]. rewrite <- IH.
   destruct (c =? 35), (is_space c), (existsb (fun x => x =? 35) r), (existsb is_space r); reflexivity.
